@@ -296,17 +296,33 @@ def minimizer_structures(ctx):
                     ok = t[3][1] == ('repeat', I(1), n)
                 verdict(ctx, R, ok, '%s/headers-and-block-ids' % label, fn, {'returned': T.show(t)[:260]}, cfg)
             nwr = 0
+
+            def elem_writes(st_, v, seen, depth=0):
+                """element writes into v or into what it owns (the boxed slice behind a Box, the target of a mutable iterator)"""
+                out = []
+                while isinstance(v, X.Ref):
+                    v = ip.load(st_, v.cell, v.path)
+                if not isinstance(v, X.Sym) or id(v) in seen or depth > 3:
+                    return out
+                seen.add(id(v))
+                for k in list(v.over):
+                    x = v.over[k]
+                    if isinstance(k, tuple) and k and k[0] == '#elem':
+                        if k in v.wr:
+                            out.append((k[1], x))
+                    else:
+                        out += elem_writes(st_, x, seen, depth + 1)
+                return out
             for (p_, head, bst, bmap, valid, cur) in ip.back_states:
-                pos = [hv for hv, ev in bmap if hv[0] == 'var' and '.pos@' in hv[1]]
+                # the position: what counts the elements up from 0 (a range, the index of enumerate, a slice position)
+                pos = [hv for hv, ev in bmap if hv[0] == 'var' and T.TYPES.get(hv) == 'usize' and ev == I(0) and cur.get(hv) == T.mk_add(hv, I(1))]
+                seen = set()
                 for c in bst.frames[-1].cells:
-                    v = c.v
-                    while isinstance(v, X.Ref):
-                        v = ip.load(bst, v.cell, v.path)
-                    if isinstance(v, X.Sym) and v.wr:
-                        for k in v.wr:
-                            nwr += 1
-                            ok = len(pos) == 1 and k == ('#elem', pos[0]) and ip.to_term(bst, v.over[k]) == pos[0]
-                            verdict(ctx, R, ok, '%s/segment[i]-is-i' % label, fn, {'write': (str(k), T.show(ip.to_term(bst, v.over[k])))}, cfg)
+                    for idx, x in elem_writes(bst, c.v, seen):
+                        nwr += 1
+                        val = x if isinstance(x, tuple) else ip.to_term(bst, x)
+                        ok = any(idx == p0 and val == p0 for p0 in pos) or any(ip.entails(bst, AND(eq(idx, p0), eq(val, p0))) for p0 in pos)
+                        verdict(ctx, R, ok, '%s/segment[i]-is-i' % label, fn, {'write': (T.show(idx), T.show(val))}, cfg)
             verdict(ctx, R, nwr >= 1 and kinds == {'empty', 'one-block'}, '%s/cases-and-fill-loop-present' % label, fn, {'cases': sorted(kinds), 'writes': nwr}, cfg)
     fast_set(ctx)
 
